@@ -57,23 +57,30 @@ Definition Grow (s s' : st) : Prop :=
   (fut s' = FTimeout -> fut s = FTimeout) /\
   (exists nl, started s' = started s ++ nl /\
       (forall b, In b nl -> sync_of addrs b = Some true -> fut s' = FOk b) /\
-      (forall b, In b nl -> In b (ifl s') \/ sync_of addrs b <> None)).
+      (forall b, In b nl -> In b (ifl s') \/ sync_of addrs b <> None)) /\
+  (forall b, In b (ifl s) -> In b (ifl s')) /\
+  (forall b, In b (ifl s') -> In b (ifl s) \/ (sync_of addrs b = None /\ ~ In b (started s))).
 
 Lemma grow_of_ext s s' : Ext s s' -> Grow s s'.
 Proof.
   intros [L O T [nl [S1 [S2 [S3 S4]]]] TM CT I1 I2].
-  split; [|split].
+  split; [|split; [|split; [|split]]].
   - intros w Hw. right. apply O. auto.
   - intros H. contradiction.
   - exists nl. auto.
+  - intros b Hb. unfold ifl in *. apply in_map_iff in Hb. destruct Hb as [e [E1 E2]].
+    apply in_map_iff. exists e. auto.
+  - exact I2.
 Qed.
 
-Lemma grow_same s s' : fut s' = fut s -> started s' = started s -> Grow s s'.
+Lemma grow_same s s' : fut s' = fut s -> started s' = started s -> infl s' = infl s -> Grow s s'.
 Proof.
-  intros F S. split; [|split].
+  intros F S I. split; [|split; [|split; [|split]]].
   - intros w Hw. left. congruence.
   - congruence.
   - exists []. rewrite app_nil_r. split; auto. split; intros b [].
+  - unfold ifl. rewrite I. auto.
+  - unfold ifl. rewrite I. auto.
 Qed.
 
 (* ---- on_timeout, entered with the timer no longer scheduled ---- *)
@@ -128,8 +135,9 @@ Proof.
     rewrite Q in C3. rewrite OT_OT0.
     destruct (OT0_inv s3 C3) as [I4 [G4 [D4 M4]]].
     split; [exact I4|split].
-    + destruct G3 as [G31 [G32 [nl1 [G33 [G34 G35]]]]]. destruct G4 as [G41 [G42 [nl2 [G43 [G44 G45]]]]].
-      split; [|split].
+    + destruct G3 as [G31 [G32 [[nl1 [G33 [G34 G35]]] [G36 G37]]]].
+      destruct G4 as [G41 [G42 [[nl2 [G43 [G44 G45]]] [G46 G47]]]].
+      split; [|split; [|split; [|split]]].
       * intros w Hw. destruct (G41 w Hw) as [H|[H1 [H2 H3]]].
         -- destruct (G31 w H) as [H'|[H1 [H2 H3]]]; [left; exact H'|right]. repeat split; auto.
            rewrite G43. apply in_or_app. left. auto.
@@ -142,8 +150,11 @@ Proof.
            destruct (D4 D3) as [F4 _]. rewrite F4. exact F3.
         -- intros b Hb. apply in_app_or in Hb. destruct Hb as [Hb|Hb]; [|apply G45; auto].
            destruct (G35 b Hb) as [H|H]; [left|right; auto].
-           unfold ifl in *. apply in_map_iff in H. destruct H as [e [H1 H2]].
-           apply in_map_iff. exists e. split; auto.
+           apply G46. exact H.
+      * intros b Hb. apply G46. apply G36. exact Hb.
+      * intros b Hb. destruct (G47 b Hb) as [H|[H1 H2]].
+        -- destruct (G37 b H) as [H'|H']; auto.
+        -- right. split; auto. intros H. apply H2. rewrite G33. apply in_or_app. left. exact H.
     + intros e He. apply M4. apply (e_infl _ _ _ E3). exact He.
   - split; [|split].
     + split; [|intros H; apply (e_live _ _ _ E3); auto].
@@ -167,6 +178,7 @@ Proof.
   - intros x. split; [intros []|intros [[] _]].
   - constructor.
   - intros a r b [].
+  - intros a [].
 Qed.
 
 Lemma start_inv has_ct : Inv (start addrs has_ct) /\ Grow (init addrs) (start addrs has_ct).
